@@ -82,4 +82,15 @@ def structural(find_def):
     muts = [n for n in ast.walk(fn) if isinstance(n, ast.Call) and isinstance(n.func, ast.Attribute) and isinstance(n.func.value, ast.Name) and n.func.value.id == "required"]
     out.append(("json_schema/S4-same-list-emitted-under-required", ok4 and not muts,
                 'the schema literal carries {"required": required} and json_schema itself calls no method on the list' if ok4 and not muts else "dict uses: %d, method calls on required: %s" % (len(dict_uses), [ast.unparse(m)[:50] for m in muts])))
+    # S5 (parse side): the names the property parser treats as required are exactly schema["required"] -- also when that list is
+    # empty (every parameter Optional), which is what the emitter writes for an all-Optional interface
+    pj = find_def("cdd.json_schema.parse", "json_schema")
+    ok5, why5 = None, "cdd.json_schema.parse:json_schema not found"
+    if pj is not None:
+        binds = [n for n in ast.walk(pj) if isinstance(n, (ast.Assign, ast.AnnAssign)) and any(isinstance(t, ast.Name) and t.id == "required" for t in ([n.target] if isinstance(n, ast.AnnAssign) else n.targets))]
+        txt = ast.unparse(binds[0].value) if len(binds) == 1 else None
+        ok5 = txt in ("frozenset(schema['required']) if schema.get('required') else frozenset()", "frozenset(schema.get('required') or ())", "frozenset(schema.get('required', ()))")
+        why5 = ("`required` is frozenset(schema['required']) when that list is non-empty and the empty set otherwise: a property is wrapped in Optional exactly when the emitter did not list it"
+                if ok5 else "`required` of the parser is bound to: %s" % (txt or "%d bindings" % len(binds)))
+    out.append(("parse.json_schema/S5-required-set-is-the-schema's-required-list", ok5, why5))
     return out
